@@ -82,6 +82,17 @@ def child_job(job):
         os.remove(path)
 
 
+def generic_mode_job(job):
+    mode, epsrel, seed = job
+    env = dict(os.environ, PYTHONPATH=core.REPO + ":" + core.VERIF, OMP_NUM_THREADS="1")
+    p = subprocess.run([core.PY, "-m", "harness.chain_engine", "generic", mode, repr(epsrel), str(seed)], env=env,
+                       cwd=core.VERIF, stdout=subprocess.PIPE, stderr=subprocess.PIPE, text=True, timeout=900)
+    for line in p.stdout.splitlines():
+        if line.startswith("RESULT "):
+            return json.loads(line[7:])
+    return {"error": (p.stdout + p.stderr)[-300:]}
+
+
 def uncoupled_job(job):
     """J = 0: every site must evolve exactly as the single-site computation with the same process tensor."""
     import oqupy
@@ -223,6 +234,23 @@ def run(ctx):
         ctx.case({"two_site_dense": {"order": j[1]}}, nontrivial=True)
         for x in mm:
             ctx.violation("C10:two-site:%s" % x["what"], "%s: %s" % (j, x), {"twosite": list(j)})
+    # execution modes on a generic entangling chain whose result depends on the truncation threshold
+    gj = [(mode, eps, ctx.seed) for eps in (1e-3, 1e-8) for mode in ("none", "multithread", "multiprocess")]
+    gres = dict(zip(gj, core.pmap(generic_mode_job, gj, workers=6)))
+    for eps in (1e-3, 1e-8):
+        ref = gres[("none", eps, ctx.seed)]
+        for mode in ("multithread", "multiprocess"):
+            got = gres[(mode, eps, ctx.seed)]
+            ctx.case({"generic_chain": {"mode": mode, "epsrel": eps}}, nontrivial=True)
+            if "error" in got or "error" in ref:
+                ctx.violation("C10:%s:generic-chain-exception" % mode, "%s / %s" % (got.get("error"), ref.get("error")),
+                              {"generic": [mode, eps]})
+                continue
+            if got["bond"] != ref["bond"]:
+                ctx.violation("C10:%s:modes-differ-bond-dimensions" % mode, "epsrel=%g sequential %s vs %s %s" % (
+                    eps, ref["bond"][-1], mode, got["bond"][-1]), {"generic": [mode, eps]})
+            elif max(np.max(np.abs(np.array(a) - np.array(b))) for a, b in zip(got["dm"], ref["dm"])) > 1e-10:
+                ctx.violation("C10:%s:modes-differ-states" % mode, "epsrel=%g" % eps, {"generic": [mode, eps]})
     ctx.rule = ("chain configurations of Chain.tla (lengths 2..4, Trotter orders 1/2, ancilla environments, controls; TLC "
                 "explores every completion order of every gate layer) x execution modes {sequential, multithread, "
                 "multiprocess with real pools in fresh interpreters, order-controlled executor}; uncoupled chains vs "
@@ -235,6 +263,13 @@ def run(ctx):
 def replay(ctx, rep):
     core._init_worker()
     c = rep["case"]
+    if "generic" in c:
+        a = generic_mode_job(("none", c["generic"][1], rep.get("seed", 0)))
+        b = generic_mode_job((c["generic"][0], c["generic"][1], rep.get("seed", 0)))
+        ctx.case({"replay": True})
+        if a != b:
+            ctx.violation("C10:replay:modes-differ", "%s" % c["generic"], c)
+        return
     if "twosite" in c:
         mm = twosite_job(tuple(c["twosite"]))
     elif c.get("mode") == "sequential":
